@@ -142,6 +142,29 @@ def main(ctx, replay=None):
         if not node_paths(eff) <= unode | node_paths(default):
             ctx.violation("effective configuration contains stray keys", {"user": u0, "effective": eff}, {"fn": "apply_default_config", "clause": "stray"})
 
+    # a caller editing the configuration it got back must not change what the NEXT call takes from the packaged defaults
+    def poison(t):
+        for k in list(t):
+            if isinstance(t[k], dict):
+                poison(t[k])
+            else:
+                t[k] = "POISON"
+        t["poison_key"] = 1
+    for uc in users[:4]:
+        ctx.count({"apply_default_twice": uc})
+        try:
+            first = apply_default_config(copy.deepcopy(uc))
+            snapshot = copy.deepcopy(first)
+            poison(first)
+            second = apply_default_config(copy.deepcopy(uc))
+        except Exception as ex:
+            ctx.violation(f"apply_default_config raised {ex!r} on the second call", {"user": uc}, {"fn": "apply_default_config", "clause": "raises"})
+            continue
+        if second != snapshot:
+            ctx.violation("after the caller edited a returned configuration, apply_default_config no longer takes the packaged defaults "
+                          "(the effective configuration of the next call contains the caller's edits)", {"user": uc, "second": second},
+                          {"fn": "apply_default_config", "clause": "defaults_polluted"})
+
     # ---- validation decision table ---------------------------------------------------------------------------
     perts = res.load("c16_valid.json")["perturbations"]
     full = copy.deepcopy(default)
